@@ -1,4 +1,5 @@
 import AfkakProofs.Consumer.Trace
+import AfkakProps.Open.C02
 /-!
 # C02 — the consumer delivers every message once, in offset order, never concurrently
 Property theorems only; helper lemmas live in `AfkakProofs/Consumer/`.
@@ -27,4 +28,8 @@ C02_no_overlap
 C02_single_fetch
 -/
 /- OPEN_STATEMENTS
+C02_increasing
+C02_payload
+C02_no_gap_no_dup
+C02_prompt
 -/
